@@ -195,7 +195,7 @@ def orcStep (o : OState) (op obs : String) : OState × String :=
   | [c] =>
     let left := ((kv (words obs) "left").bind String.toNat?).getD 99
     let o := { o with leftAfterClose := o.leftAfterClose ++ [left], finished := true }
-    if c == "free" then
+    if c == "free" || c == "close" then
       let new := expected o.size o.calls
       let newTok := viewTok o.old (some new)
       let a := atomicOk "o" newTok o.views
